@@ -260,13 +260,16 @@ class Sim:
         recursion: the interpreter's recursion limit is lowered for this op only."""
         env = self.env
         if of["kind"] == "leaf_exc":
+            from .lang import ARMED_LEAF_STATES
             st = env.leaf_state
             st.armed, st.calls, st.fire_at = True, 0, of["at"]
+            ARMED_LEAF_STATES.append(st)
             try:
                 v = exec_op(env, self.program[i])
             finally:
                 fired = st.calls >= st.fire_at
                 st.armed = False
+                ARMED_LEAF_STATES.remove(st)
             if fired and isinstance(v, Failed) and v.exc == "RuntimeError":
                 v.injected = True
                 self.fired["leaf_exc"] = self.fired.get("leaf_exc", 0) + 1
